@@ -5,6 +5,7 @@ import (
 	"encoding/json"
 	"fmt"
 	"os"
+	"reflect"
 	"strings"
 	"sync"
 	"time"
@@ -90,7 +91,13 @@ func raceRunJ(jf *os.File, seed uint64, start, n, step int64, repo string, stop 
 						}
 						o := &res[ti][ci]
 						o.in = in
-						o.kind, _ = guardRun(func() (err error) { o.outs, err = models[call.Model].Run(in); return })
+						runOn := models[call.Model]
+						if c.World.CopyModels {
+							cp := reflect.New(reflect.TypeOf(*runOn))
+							cp.Elem().Set(reflect.ValueOf(*runOn))
+							runOn = cp.Interface().(*gonnx.Model)
+						}
+						o.kind, _ = guardRun(func() (err error) { o.outs, err = runOn.Run(in); return })
 					}
 				}
 			}()
